@@ -117,7 +117,7 @@ def check(acc, m: Mol, history=0):
         acc.count("token_count_mismatch_dropped")
         return
     case = {"text": text, "ast": m.to_json(), "history": history}
-    if history:
+    if history in (1, 2):
         # the graph must not depend on what was generated from the object before
         import numpy as np
         ok_wp, _ = reflaw.well_posed(m)
@@ -125,6 +125,13 @@ def check(acc, m: Mol, history=0):
             for k in range(history):
                 probe.guarded(lambda: obj.generate(rng=np.random.default_rng(k)), seconds=60)
             acc.label("history:generate_before_graph")
+    elif history >= 3:
+        # ... nor on graphs (reaction graph, atom graph) built from the same object before
+        for k in range(history - 2):
+            probe.guarded(obj.gen_reaction_graph, seconds=60)
+            if k:
+                probe.guarded(lambda: obj.gen_stochastic_atom_graph(expect_schulz_zimm_distribution=False), seconds=60)
+        acc.label("history:graph_before_graph")
     status, G = probe.guarded(obj.gen_reaction_graph, seconds=60)
     unequal = any(len({b.w for b in e.repeat_bds}) > 1 or len({b.w for b in e.end_bds}) > 1 for e in m.elements if isinstance(e, Stoch))
     has_list = any(b.transitions for t in m.tokens for b in t.bds) or any(isinstance(e, Stoch) and e.left.transitions for e in m.elements)
@@ -207,7 +214,7 @@ def check(acc, m: Mol, history=0):
 def run_shard(cfg):
     acc = Acc()
     n = max(1, SIZES[cfg["tier"]] // cfg["nshards"])
-    drive(st.tuples(molecules(max_blocks=3, max_atoms=4, small=True), st.sampled_from([0, 0, 1, 2])), lambda x: check(acc, x[0], x[1]), n, cfg["seed"])
+    drive(st.tuples(molecules(max_blocks=3, max_atoms=4, small=True), st.sampled_from([0, 0, 1, 2, 3, 4])), lambda x: check(acc, x[0], x[1]), n, cfg["seed"])
     return acc
 
 
